@@ -122,9 +122,9 @@ func zvC36Kind(got, want string) string {
 }
 
 // compare evaluates the oracle for one history; a is the reloaded server, b the fresh one,
-// prev a fresh start with the configuration before the last reload (it only decides how a difference
-// between a and b is classified, never whether there is one).
-func (h *zvC36Harness) compare(cs zvC36Case, a, b, prev *zvC36Obs) {
+// earlier are fresh starts with the configurations before the last reload (they only decide how a
+// difference between a and b is classified, never whether there is one).
+func (h *zvC36Harness) compare(cs zvC36Case, a, b *zvC36Obs, earlier []*zvC36Obs) {
 	r := h.r
 	hist := strings.Join(cs.Configs, " -> ")
 	viol := func(sig map[string]string, format string, args ...any) {
@@ -189,6 +189,14 @@ func (h *zvC36Harness) compare(cs zvC36Case, a, b, prev *zvC36Obs) {
 			reported[setting] = true
 			viol(vh.Sig("clause", "setting-not-applied", "setting", setting), "peer %s: effective %s is %s after the reload, %s after a fresh start", k, setting, got, want)
 		}
+		settingReported := func() bool { // was a specific setting reported for this peer?
+			for s := range reported {
+				if !strings.Contains(s, "clause=") && !strings.HasPrefix(s, "stored:") {
+					return true
+				}
+			}
+			return false
+		}
 		for _, s := range zvC36Keys(pb.Scalars) {
 			if pa.Scalars[s] != pb.Scalars[s] {
 				notApplied(s, pa.Scalars[s], pb.Scalars[s])
@@ -220,8 +228,8 @@ func (h *zvC36Harness) compare(cs zvC36Case, a, b, prev *zvC36Obs) {
 		if pa.ProbeFam != nil && pb.ProbeFam != nil {
 			zvC36FamDiff(pa.ProbeFam, pb.ProbeFam, policy("future-sessions"))
 		}
-		// what is sent and dialled
-		if len(reported) == 0 {
+		// what is sent and dialled (when no specific setting explains the difference)
+		if !settingReported() {
 			if pa.Caps != pb.Caps || pa.Open != pb.Open || pa.ProbeOpen != pb.ProbeOpen {
 				notApplied("open-message", pa.Caps+" / "+pa.ProbeOpen, pb.Caps+" / "+pb.ProbeOpen)
 			}
@@ -234,9 +242,11 @@ func (h *zvC36Harness) compare(cs zvC36Case, a, b, prev *zvC36Obs) {
 			for _, p := range pb.DialParams {
 				inB[p] = true
 			}
-			if pp := prev.Peers[k]; pp != nil {
-				for _, p := range pp.DialParams {
-					old[p] = true
+			for _, e := range earlier {
+				if pp := e.Peers[k]; pp != nil {
+					for _, p := range pp.DialParams {
+						old[p] = true
+					}
 				}
 			}
 			extraAllOld, extra, missing := true, 0, 0
@@ -256,8 +266,8 @@ func (h *zvC36Harness) compare(cs zvC36Case, a, b, prev *zvC36Obs) {
 				}
 			}
 			if extra > 0 && extraAllOld && missing == 0 {
-				viol(vh.Sig("clause", "replaced-session-old-fsm-still-dials"), "peer %s was re-created by the reload, but connection attempts with the parameters of the previous configuration are still made in the %v after the reload: seen %v, a fresh start makes %v", k, zvC36Window, pa.DialParams, pb.DialParams)
-			} else if len(reported) == 0 { // otherwise a consequence of what was reported above
+				viol(vh.Sig("clause", "replaced-session-old-fsm-still-dials"), "peer %s was re-created by the reload, but connection attempts with the parameters of an earlier configuration are still made in the %v after the reload: seen %v, a fresh start makes %v", k, zvC36Window, pa.DialParams, pb.DialParams)
+			} else if !settingReported() { // otherwise a consequence of what was reported above
 				notApplied("dial-parameters", fmt.Sprint(pa.DialParams), fmt.Sprint(pb.DialParams))
 			}
 		}
@@ -272,12 +282,9 @@ func (h *zvC36Harness) compare(cs zvC36Case, a, b, prev *zvC36Obs) {
 		}
 		// the configuration the server hands out (GetPeerConfig), basis of the next reload's decisions;
 		// stale scalars are the consequence of a missing restart that was reported above
-		settingReported := false
-		for s := range reported {
-			settingReported = settingReported || !strings.Contains(s, "clause=")
-		}
+		staleExplained := settingReported()
 		for _, s := range zvC36Keys(pb.Stored) {
-			if pa.Stored[s] != pb.Stored[s] && !settingReported {
+			if pa.Stored[s] != pb.Stored[s] && !staleExplained {
 				viol(vh.Sig("clause", "stored-config-stale", "field", s), "peer %s: GetPeerConfig reports %s=%s after the reload, %s after a fresh start", k, s, pa.Stored[s], pb.Stored[s])
 			}
 		}
@@ -318,11 +325,21 @@ func (h *zvC36Harness) coverage(prev, last *zvC36Obs) (nontrivial bool) {
 				nontrivial = true
 			}
 		}
+		restart := false // does anything change that cannot be done in place?
+		for _, s := range zvC36Keys(pl.Scalars) {
+			restart = restart || pp.Scalars[s] != pl.Scalars[s]
+		}
+		zvC36FamDiff(pp.Fam, pl.Fam, func(fam, field, av, bv string) {
+			restart = restart || (field != "import" && field != "export")
+		})
 		zvC36FamDiff(pp.Fam, pl.Fam, func(fam, field, av, bv string) {
 			r.Count("step:changes:"+fam+"-"+field, 1)
 			nontrivial = true
 			if field == "import" || field == "export" {
 				r.Count("step:"+zvC36Kind(av, bv), 1)
+				if !restart {
+					r.Count("step:policy-only-change:"+fam+"-"+field, 1)
+				}
 			}
 		})
 		if pp.Open != pl.Open {
@@ -331,6 +348,9 @@ func (h *zvC36Harness) coverage(prev, last *zvC36Obs) (nontrivial bool) {
 		if fmt.Sprint(pp.DialParams) != fmt.Sprint(pl.DialParams) {
 			r.Count("step:changes:dial-parameters", 1)
 		}
+	}
+	if prev == last {
+		r.Count("step:unchanged-file", 1)
 	}
 	for _, k := range zvC36Keys(last.Peers) {
 		if _, ok := prev.Peers[k]; !ok {
@@ -350,7 +370,11 @@ func (h *zvC36Harness) runCase(cs zvC36Case) {
 	n := len(cs.YAML)
 	accept := cs.Dial == "accepted"
 	b := h.freshObs(cs.Configs[n-1], cs.YAML[n-1], accept)
-	prev := h.freshObs(cs.Configs[n-2], cs.YAML[n-2], accept)
+	var earlier []*zvC36Obs
+	for i := 0; i < n-1; i++ {
+		earlier = append(earlier, h.freshObs(cs.Configs[i], cs.YAML[i], accept))
+	}
+	prev := earlier[n-2]
 	a := zvC36Run(paths, time.Duration(cs.GapMs)*time.Millisecond, accept, os.Getenv("VERIF_C36_DEBUG") != "")
 	r.Eval(1)
 	r.States(1)
@@ -368,7 +392,7 @@ func (h *zvC36Harness) runCase(cs zvC36Case) {
 	r.Count(fmt.Sprintf("histories-of-length-%d", n), 1)
 	r.Count(fmt.Sprintf("histories-phase-%s-%dms", cs.Dial, cs.GapMs), 1)
 	before := r.NViolations()
-	h.compare(cs, a, b, prev)
+	h.compare(cs, a, b, earlier)
 	if r.NViolations() == before {
 		r.Count("histories-converged", 1)
 	}
@@ -410,7 +434,8 @@ func TestVerifC36(t *testing.T) {
 		"step:changes:ipv4-addpath-send", "step:changes:cluster-id", "step:changes:multiprotocol-ipv4", "step:changes:next-hop-extended",
 		"step:changes:peer-as", "step:changes:local-as", "step:changes:hold-time", "step:changes:passive", "step:changes:route-reflector-client",
 		"step:changes:route-server-client", "step:changes:authentication-key", "step:changes:ipv4-import", "step:changes:ipv4-export",
-		"step:policy-removed", "step:policy-added", "step:policy-changed", "step:changes:dial-parameters",
+		"step:policy-removed", "step:policy-added", "step:policy-changed", "step:policy-only-change:ipv4-import", "step:policy-only-change:ipv4-export",
+		"step:policy-only-change:ipv6-import", "step:policy-only-change:ipv6-export", "step:unchanged-file", "step:changes:dial-parameters",
 		"dials-observed", "incoming-connections-answered", "incoming-connections-rejected",
 		"histories-of-length-2", "histories-of-length-3", "histories-phase-refused-0ms", "histories-phase-refused-20000ms", "histories-phase-accepted-15500ms")
 
@@ -453,10 +478,7 @@ func TestVerifC36(t *testing.T) {
 	}
 	for i := range all {
 		for j := range all {
-			if i == j {
-				continue
-			}
-			for _, ph := range phases {
+			for _, ph := range phases { // i == j included: reloading an unchanged file must change nothing
 				do([]int{i, j}, ph)
 			}
 		}
